@@ -24,6 +24,9 @@ RULE = (
     "search. Plus an uncontrolled real-thread stress run. Distinct sequential histories by (cache class, op, outcome class); "
     "concurrent ones by thread trace."
 )
+RULE += " " + (
+    "Also: statistics snapshots kept across traffic; a lookup whose acquisition of the cache lock takes virtual time (freshness judged inside the critical section)."
+)
 ASSUMPTIONS = [
     "sequential model in this file; set_max_size only stores the limit (the cache shrinks at the next insertion), so the bound is asserted after insertions",
     "dns.resolver.time is a virtual clock; it is frozen while a concurrent history runs",
